@@ -1426,16 +1426,61 @@ def run(ctx):
         N = rng.randrange(2, 14) if rng.random() < 0.9 else rng.randrange(14, 60)
         maxl = N * (N - 1) // 2
         L = rng.choice([0, maxl, rng.randrange(0, maxl + 1)])
-        A = np.asarray(quiet(Network.ErdosRenyi, n_nodes=N, n_links=L))
+        with IgraphSpy("Erdos_Renyi") as spy:
+            A = np.asarray(quiet(Network.ErdosRenyi, n_nodes=N, n_links=L))
         ctx.case(("er", N, L, A.tobytes().hex()), L > 0)
         ctx.count("generator:ErdosRenyi(n_links)")
+        # round 5: igraph's contract (simple graph on N nodes with exactly L links) is checked on every
+        # call; the model reads the adjacency matrix out of the graph igraph returned
+        # (theorems generator_adjacency_spec / erdosRenyi_spec)
+        if spy.edges:
+            es = spy.edges[-1]
+            if spy.vcount[-1] != N or len(es) != L or any(a_ == b_ for a_, b_ in es) \
+                    or len({frozenset(e) for e in es}) != len(es):
+                ctx.count("ErdosRenyi:igraph-contract-broken")
+            reqs.append(f"edges {N} {enc_mat(es) if es else '-'}")
+            impl.append(enc_mat(A.reshape(N, N)))
+        else:
+            ctx.count("ErdosRenyi:igraph-call-not-observed")
         if not simple_undirected(A) or int(A.sum()) // 2 != L:
             ctx.fail({"kind": "model", "generator": "ErdosRenyi", "invariant": "link-count"},
                      f"ErdosRenyi(n_nodes={N}, n_links={L}) gave {int(A.sum()) // 2} links / not simple",
                      {"n_nodes": N, "n_links": L, "A": A.tolist()})
         p = rng.choice([0.0, 0.3, 1.0])
-        A = np.asarray(quiet(Network.ErdosRenyi, n_nodes=N, link_probability=p))
+        with IgraphSpy("Erdos_Renyi") as spy:
+            A = np.asarray(quiet(Network.ErdosRenyi, n_nodes=N, link_probability=p))
         ctx.count("generator:ErdosRenyi(p)")
+        if spy.edges:
+            es = spy.edges[-1]
+            if spy.vcount[-1] != N or any(a_ == b_ for a_, b_ in es) or len({frozenset(e) for e in es}) != len(es):
+                ctx.count("ErdosRenyi:igraph-contract-broken")
+            reqs.append(f"edges {N} {enc_mat(es) if es else '-'}")
+            impl.append(enc_mat(A.reshape(N, N)))
+            if p in (0.0, 1.0) and int(A.sum()) // 2 != (0 if p == 0.0 else maxl):
+                ctx.fail({"kind": "model", "generator": "ErdosRenyi", "invariant": "p-extreme"},
+                         f"ErdosRenyi(n_nodes={N}, link_probability={p}) gave {int(A.sum()) // 2} links",
+                         {"n_nodes": N, "p": p, "A": A.tolist()})
+        # the argument dispatch: both or neither argument -> ValueError, never a silent result
+        if c < 8:
+            for hp_, hm_ in [(0, 0), (1, 1), (1, 0), (0, 1)]:
+                kw = {"n_nodes": N}
+                if hp_:
+                    kw["link_probability"] = rng.choice([0.0, 0.5, 1.0])   # 0.0 is "given" (`is not None`)
+                if hm_:
+                    kw["n_links"] = rng.choice([0, L])                      # so is n_links=0
+                try:
+                    quiet(Network.ErdosRenyi, **kw)
+                    out = "p" if hp_ else "m"
+                except ValueError:
+                    out = "raise:ValueError"
+                except Exception as e:  # noqa
+                    out = "raise:" + type(e).__name__
+                reqs.append(f"ercall {hp_} {hm_}")
+                impl.append(out)
+                ctx.count(f"generator:ErdosRenyi:dispatch p={'given' if hp_ else 'None'} m={'given' if hm_ else 'None'} -> {out}")
+                if hp_ == hm_ and out != "raise:ValueError":
+                    ctx.fail({"kind": "model", "generator": "ErdosRenyi", "invariant": "dispatch"},
+                             f"ErdosRenyi({kw}) did not raise ValueError", {"kwargs": {k_: float(v_) for k_, v_ in kw.items()}})
         if not simple_undirected(A):
             ctx.fail({"kind": "model", "generator": "ErdosRenyi", "invariant": "simple"},
                      "ErdosRenyi(p) not simple", {"n_nodes": N, "p": p, "A": A.tolist()})
@@ -1504,8 +1549,18 @@ def run(ctx):
                 ctx.count("generator:Configuration:odd-sum-refused")
         k = rng.randrange(1, 3)
         Nw = rng.randrange(2 * k + 2, 16)
-        A = np.asarray(quiet(Network.WattsStrogatz, N=Nw, k=k, p=rng.choice([0.0, 0.2, 1.0])))
+        with IgraphSpy("Watts_Strogatz") as spy:
+            A = np.asarray(quiet(Network.WattsStrogatz, N=Nw, k=k, p=rng.choice([0.0, 0.2, 1.0])))
         ctx.count("generator:WattsStrogatz")
+        if spy.edges:
+            es = spy.edges[-1]
+            if spy.vcount[-1] != Nw or len(es) != Nw * k or any(a_ == b_ for a_, b_ in es) \
+                    or len({frozenset(e) for e in es}) != len(es):
+                ctx.count("WattsStrogatz:igraph-contract-broken")
+            reqs.append(f"edges {Nw} {enc_mat(es) if es else '-'}")
+            impl.append(enc_mat(A.reshape(Nw, Nw)))
+        else:
+            ctx.count("WattsStrogatz:igraph-call-not-observed")
         if not simple_undirected(A) or int(A.sum()) // 2 != Nw * k:
             ctx.fail({"kind": "model", "generator": "WattsStrogatz", "invariant": "link-count"},
                      f"WattsStrogatz(N={Nw}, k={k}) gave {int(A.sum()) // 2} links / not simple",
@@ -1639,4 +1694,6 @@ def run(ctx):
         dist_step(net, [])
     ctx.correspond("Lean fromEdges == Network.set_edge_list (directly and as called by randomly_rewire); "
                    "simplified == Network.Configuration / BarabasiAlbert_igraph given the (multi)graph igraph "
-                   "produced; distKernel == set_random_links_by_distance on fresh objects", reqs, impl)
+                   "produced; fromEdges == Network.ErdosRenyi / WattsStrogatz given the graph igraph produced; "
+                   "erdosRenyiCall == the argument dispatch of ErdosRenyi; "
+                   "distKernel == set_random_links_by_distance on fresh objects", reqs, impl)
